@@ -1,6 +1,7 @@
 package hx
 
 import (
+	"strings"
 	"fmt"
 	"math"
 )
@@ -230,6 +231,84 @@ func GenPredGrid(w *Writer, thorough bool) error {
 					f = Filt{Base: f, Pred: p}
 				}
 				w.Eval(EvalCase{Fam: "pred-grid", Doc: d, Env: Env{}, Start: 0, E: f, Xpath: Render(f, &Style{})})
+			}
+		}
+	}
+	return nil
+}
+
+// GenBoundaryCompareGrid: strings whose number sits at an integer-width boundary (2^31, 2^32, 2^53, 2^63,
+// 2^64: every digit string of 10 … 20 digits is a number in XPath) against numbers around them, every
+// ordered pair × the six operators (C05).
+func GenBoundaryCompareGrid(w *Writer) error {
+	d, err := gridDoc(w, "grid5b")
+	if err != nil {
+		return err
+	}
+	var vals []Value
+	for _, s := range []string{"2147483648", "4294967296", "9007199254740993", "9223372036854775807", "9223372036854775808",
+		"9999999999999999999", "18446744073709551615", "18446744073709551616", "-9223372036854775808", "-9223372036854775809",
+		" 9999999999999999999 ", "09223372036854775809"} {
+		vals = append(vals, Value{Kind: "str", Str: s})
+	}
+	for _, f := range []float64{2147483648, 4294967296, 9007199254740992, 9007199254740994, 9223372036854775808, 9.3e18, 1e19, 18446744073709551616, -9223372036854775808, -9.3e18} {
+		vals = append(vals, Value{Kind: "num", Num: f})
+	}
+	for _, a := range vals {
+		for _, b := range vals {
+			env := gridEnv(a, b)
+			for _, op := range []string{"eq", "ne", "lt", "le", "gt", "ge"} {
+				e := Bin{Op: op, L: Var{Name: "x"}, R: Var{Name: "y"}}
+				w.Eval(EvalCase{Fam: "cmp-boundary-grid", Doc: d, Env: env, Start: 0, E: e, Xpath: Render(e, &Style{})})
+			}
+		}
+	}
+	return nil
+}
+
+// GenStringSearchGrid: contains / substring-before / substring-after / starts-with for EVERY needle of up to
+// three and EVERY haystack of up to five characters over a two-letter alphabet (all the ways a needle can
+// overlap itself and a failed partial match), a few real-world pairs, and string-length of strings of
+// 0 … 40 bytes with one non-ASCII character at every offset (C07).
+func GenStringSearchGrid(w *Writer) error {
+	d, err := gridDoc(w, "grid7b")
+	if err != nil {
+		return err
+	}
+	x, y := Var{Name: "x"}, Var{Name: "y"}
+	call := func(fn string, args ...Expr) Expr { return Call{Base: Ctx{}, Name: fn, Args: args} }
+	words := func(max int) []string {
+		out := []string{""}
+		for lo, n := 0, 0; n < max; n++ {
+			hi := len(out)
+			for _, p := range out[lo:hi] {
+				out = append(out, p+"a", p+"b")
+			}
+			lo = hi
+		}
+		return out
+	}
+	pairs := [][2]string{{"Mississippi", "issip"}, {"1999/04/01", "99/"}, {"1999/04/01", "/0"}, {"aaab aab", "aab"}, {"ééa", "éa"}, {"abcabcabd", "abcabd"}, {"𝄞𝄞x", "𝄞x"}}
+	for _, h := range words(5) {
+		for _, n := range words(3) {
+			pairs = append(pairs, [2]string{h, n})
+		}
+	}
+	for _, p := range pairs {
+		env := gridEnv(Value{Kind: "str", Str: p[0]}, Value{Kind: "str", Str: p[1]})
+		for _, fn := range []string{"contains", "substring-before", "substring-after", "starts-with"} {
+			e := call(fn, x, y)
+			w.Eval(EvalCase{Fam: "strfn-search-grid", Doc: d, Env: env, Start: 0, E: e, Xpath: Render(e, &Style{})})
+		}
+	}
+	for pre := 0; pre <= 36; pre++ {
+		for _, ch := range []string{"é", "€", "𝄞"} {
+			for suf := 0; suf <= 2; suf++ {
+				s := strings.Repeat("a", pre) + ch + strings.Repeat("z", suf)
+				env := gridEnv(Value{Kind: "str", Str: s})
+				for _, e := range []Expr{call("string-length", x), call("substring", x, NumLit{Text: "2"}), call("string-length", Lit{S: s})} {
+					w.Eval(EvalCase{Fam: "strfn-length-grid", Doc: d, Env: env, Start: 0, E: e, Xpath: Render(e, &Style{})})
+				}
 			}
 		}
 	}
